@@ -28,6 +28,7 @@ struct GateCtx {
     uint64_t x_hash = 0; int phat = 0; bool amb = false; uint32_t x_phi = 0;
     uint64_t ks_in_hash = 0; uint32_t ks_pred = 0; bool ks_pred_ok = false;
     uint64_t ks_key_hash = 0;
+    std::string affine_note; // diagnostic attached to a wrong-bit report
     double noise_bound;      // admissible |phase - (+-mu)| after a bootstrap (+ks)
     bool monitors = true;
 };
@@ -63,8 +64,8 @@ static void gate_observer(void *vctx, int fn, int phase, void **a) {
                 if (idx < g->naff) {
                     const GateAffine &af = g->aff[idx];
                     uint32_t want = (uint32_t) af.cst + (uint32_t) af.ca * g->phi_in[0] + (uint32_t) af.cb * g->phi_in[1] + (uint32_t) af.cc * g->phi_in[2];
-                    if (want != g->x_phi)
-                        r.v.raise("gate-affine", "C01.affine", fmt("gate %s bootstrap #%d: phase of internal combination %d != specified %d", gate_name(g->gate), idx, (int32_t) g->x_phi, (int32_t) want), g->op_index);
+                    // diagnostic only: the property does not prescribe the internal combination, a different but correct one must not alarm
+                    if (want != g->x_phi) { r.probes.add("internal_combination_differs_from_reference_formula"); g->affine_note = fmt("gate %s bootstrap #%d: phase of internal combination %d, reference formula %d", gate_name(g->gate), idx, (int32_t) g->x_phi, (int32_t) want); }
                     r.probes.add("affine_checked");
                 }
                 return;
@@ -125,7 +126,7 @@ static void gate_observer(void *vctx, int fn, int phase, void **a) {
                 if (g->gate == G_MUX && g->depth_boot == 0 && g->boot_seen == 2) {
                     uint32_t want = (uint32_t) T_1s8 + g->woks_phase[0] + g->woks_phase[1];
                     uint32_t got = obs::lwe_phase(smp, kc->S.data(), nin);
-                    if (want != got) r.v.raise("gate-affine", "C01.mux-sum", fmt("MUX: key-switch input phase %d != 1/8+u1+u2 = %d", (int32_t) got, (int32_t) want), g->op_index);
+                    if (want != got) { r.probes.add("internal_combination_differs_from_reference_formula"); g->affine_note = fmt("MUX: key-switch input phase %d, reference 1/8+u1+u2 = %d", (int32_t) got, (int32_t) want); }
                     r.probes.add("affine_checked");
                 }
                 return;
@@ -380,7 +381,7 @@ static void exec_gates(const Plan &p, RunResult &r) {
             int cst = (int) o.geti("cst");
             int expect = gate_truth(gt, v[0], v[1], gt == G_CONSTANT ? cst : v[2]);
             // observer set-up
-            g.gate = gt; g.naff = gate_affines(gt, g.aff); g.boot_seen = 0; g.depth_boot = 0;
+            g.gate = gt; g.naff = gate_affines(gt, g.aff); g.boot_seen = 0; g.depth_boot = 0; g.affine_note.clear();
             for (int i = 0; i < 3; i++) g.phi_in[i] = in[i] ? obs::lwe_phase(in[i], kc->s.data(), n) : 0;
             // admissibility of the inputs themselves is a precondition: record it, do not judge outside it
             bool admissible = true;
@@ -479,14 +480,14 @@ static void exec_gates(const Plan &p, RunResult &r) {
             bool boot = ar >= 2;
             if (g.monitors && admissible) {
                 if (dec != expect)
-                    r.v.raise("wrong-bit", "C01.decrypt", fmt("gate %s(%d,%d,%d) decrypts to %d, truth table says %d (phase %.5f)", gate_name(gt), v[0], v[1], v[2], dec, expect, t2d((int32_t) ph)), (int) oi);
+                    r.v.raise("wrong-bit", "C01.decrypt", fmt("gate %s(%d,%d,%d) decrypts to %d, truth table says %d (phase %.5f)%s%s", gate_name(gt), v[0], v[1], v[2], dec, expect, t2d((int32_t) ph), g.affine_note.empty() ? "" : "; ", g.affine_note.c_str()), (int) oi);
                 if (((int32_t) ph > 0) != (expect != 0))
                     r.v.raise("wrong-bit", "C01.phase-sign", fmt("gate %s(%d,%d,%d): observer phase %.5f has the wrong sign", gate_name(gt), v[0], v[1], v[2], t2d((int32_t) ph)), (int) oi);
                 int32_t err = sdiff(ph, (uint32_t) (expect ? T_1s8 : -T_1s8));
                 if (!boot) {
                     // NOT / COPY / CONSTANT are noise-free linear operations
                     uint32_t want = gt == G_NOT ? (uint32_t) -g.phi_in[0] : gt == G_COPY ? g.phi_in[0] : (uint32_t) (cst ? T_1s8 : -T_1s8);
-                    if (ph != want) r.v.raise("linear-gate", "C01.linear", fmt("gate %s: phase %d, exact expectation %d", gate_name(gt), (int32_t) ph, (int32_t) want), (int) oi);
+                    if (ph != want) r.probes.add("linear_gate_not_noise_free");   // diagnostic: the statement only demands the right bit
                 } else {
                     if (std::fabs(t2d(err)) >= 3.0 / 64) r.v.raise("noise-magnitude", "C02.magnitude", fmt("gate %s output phase error %.5f >= 3/64", gate_name(gt), t2d(err)), (int) oi);
                     if (!is_default) { double &mx = r.stats["sigmas.max"]; mx = std::max(mx, std::fabs(t2d(err)) / (sp.sd_gate_out() * (gt == G_MUX ? 1.42 : 1.0))); }
